@@ -408,7 +408,8 @@ pub fn main(env: &Env) -> i32 {
     let (st, mut vs) = run_indexed(n_total, env.workers, 1, |i, st, vs| {
         let mut rng = Rng::new(run_seed(seed, "C11", i));
         if i < n_gen {
-            let (_cfg, m) = gen::gen_case(&mut rng, maxc, maxm);
+            // one file in 200 is larger (> 255 classes): thresholds in counts and offsets
+            let (_cfg, m) = if i % 200 == 7 { gen::gen_case_small(&mut rng, 600, 3) } else { gen::gen_case(&mut rng, maxc, maxm) };
             enumerate_file(i, &m, combos, &mut rng, st, vs, i < 3);
         } else {
             let (_, m) = &corpus[(i - n_gen) as usize];
